@@ -162,6 +162,26 @@ def do_run(prop_mod, verif_seed, i, tier, only_arm=None):
     return res
 
 
+def diagnose_watchdog(prop_mod, verif_seed, i, tier, only_arm):
+    """A run was killed by the wall-clock watchdog. Arms that define diagnose_timeout() get the chance to turn
+    that into a verdict about one operation (re-executed alone); otherwise it stays a harness failure."""
+    rs = run_seed(prop_mod.ID, verif_seed, i)
+    rng = random.Random(rs)
+    arm = pick_arm(prop_mod, rng)
+    if only_arm is not None:
+        arm = dict((a.NAME, a) for a, _ in prop_mod.ARMS)[only_arm]
+    diag = getattr(arm, 'diagnose_timeout', None)
+    if diag is None:
+        return None
+    case = arm.gen_case(rng, tier)
+    viol = diag(case)
+    if not viol:
+        return None
+    single = viol[0].pop('single_case', case)
+    return {'i': i, 'arm': arm.NAME, 'violations': viol, 'stats': {}, 'probes': {'wall-clock-hang-diagnosed': 1},
+            'digest': 'wall-clock', 'case': single, 'nontrivial': []}
+
+
 # ------------------------------------------------------------------------------------------
 # worker pool
 # ------------------------------------------------------------------------------------------
@@ -171,7 +191,10 @@ def _worker(prop_mod, verif_seed, indices, tier, out_fd, deadline, run_timeout, 
         if time.time() > deadline:
             break
         st, res = fork_call(lambda: do_run(prop_mod, verif_seed, i, tier, only_arm), timeout=run_timeout)
-        if st != 'ok':
+        if st == 'watchdog':
+            res = diagnose_watchdog(prop_mod, verif_seed, i, tier, only_arm) or \
+                {'i': i, 'harness_error': 'child watchdog after %.0f s' % run_timeout}
+        elif st != 'ok':
             res = {'i': i, 'harness_error': 'child %s %r' % (st, res)}
         line = (json.dumps(res, default=str) + '\n').encode()
         _write_all(out_fd, line)
@@ -484,16 +507,19 @@ def run_check(prop_mod, tier, verif_seed, nruns=None, workers=None, wall_cap=Non
             budget = min(budget, cfg.get('known_minimise_budget', 8.0))
         mini = case
         mexec = 0
-        if budget > 0 and case is not None:
+        if budget > 0 and case is not None and 'wall-clock' not in viol.get('features', ()):
             m = Minimiser(arm, viol, budget_s=budget, parallel=min(16, workers))
             try:
                 mini = m.minimise(case)
             except Exception:
                 mini = case
             mexec = m.executions
-        st, final = fork_call(lambda: execute(arm, mini))
+        wall_clock = 'wall-clock' in viol.get('features', ())
+        st, final = fork_call(lambda: execute(arm, mini), timeout=30.0 if wall_clock else 120.0)
         fv = same_violation(final, viol) if st == 'ok' else None
-        if fv is None:      # minimised case does not replay: fall back to the original
+        if wall_clock and st == 'watchdog':
+            fv, final = viol, {}
+        elif fv is None:      # minimised case does not replay: fall back to the original
             mini = case
             st, final = fork_call(lambda: execute(arm, mini))
             fv = same_violation(final, viol) if st == 'ok' else None
@@ -619,8 +645,13 @@ def replay_file(path, props):
     if getattr(prop_mod, 'WARMUP', None):
         prop_mod.WARMUP()
     arm = dict((a.NAME, a) for a, _ in prop_mod.ARMS)[rep['arm']]
-    st, res = fork_call(lambda: execute(arm, rep['case']))
     want = rep['verdict']
+    wall_clock = str(want.get('signature', '')).startswith('hang:wall-clock')
+    st, res = fork_call(lambda: execute(arm, rep['case']), timeout=30.0 if wall_clock else 120.0)
+    if wall_clock and st == 'watchdog':
+        print('replay %s: the operation again does not finish within 30 s: REPRODUCED' % path)
+        print('VIOLATION property=%s replay=%s' % (rep['property'], path))
+        return 1
     if st != 'ok':
         print('REPLAY harness failure: %s %r' % (st, res))
         return 2
